@@ -71,13 +71,13 @@ def isB (c : Cal) (t : Int) : Bool := !c.weekend.contains (wd t) && !c.hol.conta
 /-- `adjust(t, 'f')` (_drange.py:546-551): first loop bounded by `t1`, second loop only leaves weekend
 days beyond `t1` (terminates iff some weekday is not a weekend day; fuel 7) -/
 def adjF (c : Cal) (t : Int) : Int :=
-  let t := loopUp (fun t => c.isHol t && decide (t ≤ c.t1)) ((c.t1 + 1 - t).toNat + 1) t
-  loopUp (fun t => decide (t > c.t1) && c.weekend.contains (wd t)) 7 t
+  loopUp (fun t => decide (t > c.t1) && c.weekend.contains (wd t)) 7
+    (loopUp (fun t => c.isHol t && decide (t ≤ c.t1)) ((c.t1 + 1 - t).toNat + 1) t)
 
 /-- `adjust(t, 'p')` (_drange.py:552-557) -/
 def adjP (c : Cal) (t : Int) : Int :=
-  let t := loopDown (fun t => c.isHol t && decide (t ≥ c.t0)) ((t + 1 - c.t0).toNat + 1) t
-  loopDown (fun t => decide (t < c.t0) && c.weekend.contains (wd t)) 7 t
+  loopDown (fun t => decide (t < c.t0) && c.weekend.contains (wd t)) 7
+    (loopDown (fun t => c.isHol t && decide (t ≥ c.t0)) ((t + 1 - c.t0).toNat + 1) t)
 
 /-- `adjust(t, adj)` (_drange.py:542-565) -/
 def adjust (c : Cal) (a : Adj) (t : Int) : Int :=
